@@ -214,7 +214,7 @@ def canon_tie(ctx, records):
 def k1_cases(ctx):
     """finding family K1: identifiers that are Python reserved words / names the generated code uses"""
     cases = []
-    for name in gen.K1_NAMES + gen.HOST_NAMES:
+    for name in gen.K1_NAMES + gen.host_names():
         for role in ("splitter", "condition", "experiment"):
             if role == "splitter":
                 text = 'def e { splitters: %s return "a" weighted 1, "b" weighted 1 }' % name
